@@ -16,6 +16,7 @@ from .effects import external_effect
 
 UNSIGNED_PARAMS = ("dmax", "slen", "smax", "n", "len", "dlen", "count", "destbos", "srcbos", "strbos", "nmemb", "size", "maxlen", "idx",
                    "bufsize", "maxsize", "basebos")
+RET_INTERIOR = ("strstr", "strchr", "strrchr", "strcasestr", "strpbrk", "memchr", "memrchr", "wcsstr", "wcschr", "wcsrchr", "wcspbrk", "wmemchr")
 RETBOUND = {"_strnlen_s_chk": 1, "_wcsnlen_s_chk": 1, "strnlen": 1, "wcsnlen": 1, "safec_strnlen_s": 1}
 
 # internal routines summarised by effect: name -> [(kind, pointer arg, length arg, unit)]
@@ -70,6 +71,13 @@ class Analysis:
             if b.is_const() and 0 <= b.c < 32:
                 return a.scale(2 ** int(b.c))
             return Lin.atom(v)
+        if op == "ptrtoint":
+            r, off = s.ptr(d["ops"][0])
+            if r is not None and not r.startswith("?"):
+                return Lin.atom("&" + r) + off
+            return Lin.atom(v)
+        if op == "sdiv" and d.get("exact") and d["ops"][1].get("k") == "c" and d["ops"][1]["v"] > 0:
+            return s.lin(d["ops"][0]).scale(Fr(1, d["ops"][1]["v"]))       # pointer difference in elements: exact by the IR's own flag
         if op in ("zext", "sext", "trunc", "bitcast") and d["ty"].startswith("i"):
             if d["ops"][0].get("ty") == "i1":
                 return Lin.atom(v)
@@ -150,6 +158,14 @@ class Analysis:
                 s.offphi[v] = (root, a, [((off if r == root else (Lin.atom(a) + off) if r == v else None), bb) for r, off, bb in incs])
                 return (root, Lin.atom(a))
             return (v, Lin.const(0))
+        if op in ("call", "invoke") and d.get("callee") in RET_INTERIOR and d.get("args"):
+            # strstr/strchr/...: NULL or a pointer at/behind the first argument (a NULL result is not dereferenced: that is the callers' null test)
+            r, off = s.ptr(d["args"][0])
+            a = "ret(" + v + ")"
+            if a not in s.retb_done:
+                s.retb_done.add(a)
+                s.extra.append(Lin.atom(a))
+            return (r, off + Lin.atom(a))
         return (v, Lin.const(0))
 
 
@@ -551,6 +567,14 @@ def analyse(fn, roles, prog, lib_roles=None, want_kinds=("W", "R"), callsite_goa
             return
         cap, role = cap_of(root, inst)
         if cap is None:
+            # no declared size: still 'nothing before the start of any buffer' -- the lower bound alone, for accesses through a pointer parameter
+            if root in fn.params and not off.is_const() and "L" in want_kinds:
+                F = facts_at(blk)
+                lo = entails_split(fn, A, F, off, hdr_atoms, blk, 0, lambda b: live_facts(b, cands))
+                ckk = (kind, what, "param:" + fn.params[root]["name"])
+                counters[ckk] = counters.get(ckk, 0) + 1
+                res.append(dict(fn=fn.name, line=line, kind=kind, what=what, root=root, role="param:" + fn.params[root]["name"], off=repr(off), size=repr(size), cap="(no declared size)",
+                                lo=bool(lo), hi=True, dead=False, ordinal=counters[ckk], const_index=False, lower_only=True))
             return
         F = facts_at(blk)
         lf = lambda b: live_facts(b, cands)
